@@ -22,8 +22,10 @@ Send plan elements: k >= 0 accept min(k, len) bytes (0 = send() returns 0); -1 B
 (BrokenPipeError); -3 ValueError.  An exhausted plan accepts everything.
 """
 import collections
+import hashlib
 import itertools
 import json
+import multiprocessing
 import os
 import time
 
@@ -252,14 +254,12 @@ class Run:
         plan = op.get("plan")
         self.pending_plan = plan or []
         s = self.raw()
-        if s is not None and plan is not None and not self.case.get("global_plan"):
+        if s is not None and plan is not None:
             s.plan = collections.deque(plan)
         self.cb_infos = []
         rc, raised = None, False
         try:
             if k == "connect":
-                if self.case.get("global_plan"):
-                    self.pending_plan = self.case["global_plan"]
                 rc = c.connect("h", 1883, 60)
             elif k == "reconnect":
                 rc = c.reconnect()
@@ -302,8 +302,8 @@ class Run:
             raised = True
         finally:
             s = self.raw()
-            if s is not None and not self.case.get("global_plan"):
-                s.plan.clear()
+            if s is not None and plan is not None and not op.get("keep"):
+                s.plan.clear()          # what the op did not use is discarded ("keep": it stays for the next ops)
         return rc, raised
 
     infos = None
@@ -379,6 +379,7 @@ class Conn:
         self.by_info = {}
         self.by_dict = {}
         self.skip_model = False
+        self.plan, self.plan_base, self.plan_sticky = [], 0, False
 
 
 def execute(case):
@@ -393,7 +394,6 @@ def execute(case):
     r = Run(case)
     r.infos = []
     _cur_rec[0] = r.rec
-    gp = case.get("global_plan")
 
     def bad(sig, what, i):
         viol.append({"case": case, "what": f"op #{i} {case['ops'][i]['op']}: {what}", "signature": sig})
@@ -430,7 +430,11 @@ def execute(case):
             if cur is None:
                 continue
             conn = cur
-            plan = list(gp) if gp else list(op.get("plan") or [])
+            if op.get("plan") is not None:
+                conn.plan, conn.plan_base, conn.plan_sticky = list(op["plan"]), calls0, bool(op.get("keep"))
+            elif not conn.plan_sticky:
+                conn.plan, conn.plan_base = [], calls0
+            plan, base, consumed_only = conn.plan, conn.plan_base, conn.plan_sticky
             # --- split the op's events into model ops: every append is an enqueue; a loop_write() that is not
             #     the one _packet_queue itself makes (direct mode, not inside a callback) is a write op
             segs, pre, cur_seg, absorb, depth = [], [], None, False, 0
@@ -465,8 +469,8 @@ def execute(case):
                 conn.skip_model = True
             s1 = conn.sock
             for j, sg in enumerate(segs):
-                lo = sg["calls"] - (0 if gp else calls0)
-                hi = (segs[j + 1]["calls"] - (0 if gp else calls0)) if j + 1 < len(segs) else ((s1.calls) if gp else len(plan))
+                lo = sg["calls"] - base
+                hi = (segs[j + 1]["calls"] - base) if j + 1 < len(segs) else ((s1.calls - base) if consumed_only else len(plan))
                 pl = plan[lo:hi] if lo >= 0 else []
                 if sg["enq"] is None:
                     conn.mops.append(("write", pl))
@@ -691,8 +695,7 @@ def run_cases(cases, out, count=True, tag=""):
 
 def _case_key(case):
     return (case["mode"], case.get("ext"), case.get("onpub", True), case.get("suppress"),
-            tuple((o["op"], o.get("qos"), o.get("size"), o.get("kind"), tuple(o.get("plan") or ())) for o in case["ops"]),
-            tuple(case.get("global_plan") or ()))
+            tuple((o["op"], o.get("qos"), o.get("size"), o.get("kind"), tuple(o.get("plan") or ())) for o in case["ops"]))
 
 
 # ------------------------------------------------------------------------------------------ generators
@@ -785,3 +788,251 @@ def gen_random(rng, mode, big=False, nops=None):
     ops.append({"op": "write", "plan": []})
     case["ops"] = ops
     return case
+
+
+def compositions(n):
+    """all ways to write n as an ordered sum of positive integers"""
+    if n == 0:
+        yield []
+        return
+    for first in range(1, n + 1):
+        for rest in compositions(n - first):
+            yield [first] + rest
+
+
+def schedules(lengths, stalls, with_fail):
+    """every send schedule that flushes packets of the given lengths (for WebSockets: frame lengths): every split
+    of every packet into accepted chunks; up to `stalls` stalls (0 = send() returns 0, -1 = BlockingIOError)
+    before any of the sends; and, if with_fail, an OSError instead of any one send (no stalls)."""
+    per = [list(compositions(n)) for n in lengths]
+    for combo in itertools.product(*per):
+        prog = [k for part in combo for k in part]
+        m = len(prog)
+        yield list(prog)
+        for ns in range(1, stalls + 1):
+            for pos in itertools.combinations_with_replacement(range(m), ns):
+                for kinds in itertools.product((0, -1), repeat=ns):
+                    out, j = [], 0
+                    for i, k in enumerate(prog):
+                        while j < ns and pos[j] == i:
+                            out.append(kinds[j])
+                            j += 1
+                        out.append(k)
+                    yield out
+        if with_fail:
+            for i in range(m):
+                yield prog[:i] + [-2]
+
+
+SECOND = {
+    "pub6": ({"op": "pub", "qos": 0, "size": 1}, 6),
+    "puback": ({"op": "rx", "kind": "pub1", "mid": 7}, 4),
+    "disc": ({"op": "disconnect"}, 2),
+}
+
+
+def small_case(mode, ext, second, sched, nwrites, first=None):
+    a = dict(first) if first else {"op": "pub", "qos": 0, "size": 0}
+    a.update({"plan": sched, "keep": True})
+    ops = [{"op": "connect", "plan": []}, {"op": "connack"}, a]
+    if second:
+        ops.append(dict(SECOND[second][0]))
+    ops += [{"op": "write"} for _ in range(nwrites)]
+    case = {"mode": mode, "ext": ext, "onpub": True, "suppress": False, "ops": ops}
+    if mode == "ws":
+        case["keys"] = [[0x11, 0xA2, 0x33, 0xC4], [0xFF, 0, 0x80, 0x7F], [1, 2, 3, 4]]
+    return case
+
+
+def gen_exhaustive_raw(stalls):
+    """two packets of <= 6 bytes on the raw socket, both modes"""
+    for second, (_, blen) in SECOND.items():
+        for sched in schedules([5, blen], stalls, True):
+            nw = sum(1 for k in sched if k <= 0) + 2
+            for ext in (True, False):
+                yield small_case("raw", ext, second, sched, nw)
+
+
+def frame_len(n):
+    return n + 6 if n < 126 else (n + 8 if n < 65536 else n + 14)
+
+
+def gen_exhaustive_ws(thorough):
+    """WebSocket: one 2-byte packet (8-byte frame) with every split and up to 1 (quick) / 2 (thorough) stalls;
+    one 5-byte QoS 0 PUBLISH (11-byte frame) with every split, no stalls, plus OSError; thorough: PUBLISH + DISCONNECT
+    (11 + 8 bytes) with every split"""
+    for sched in schedules([8], 2 if thorough else 1, True):
+        nw = len(sched) + 2
+        for ext in (True, False):
+            yield small_case("ws", ext, None, sched, nw, first={"op": "ping"})
+    for sched in schedules([11], 0, True):
+        yield small_case("ws", len(sched) % 2 == 0, None, sched, len(sched) + 2)
+    if thorough:
+        for sched in schedules([11, 8], 0, False):
+            yield small_case("ws", len(sched) % 2 == 1, "disc", sched, len(sched) + 2)
+
+
+# ------------------------------------------------------------------------------------------ check entry points
+def load_corpus():
+    out = []
+    if os.path.isdir(CORPUS):
+        for fn in sorted(os.listdir(CORPUS)):
+            if fn.endswith(".json"):
+                with open(os.path.join(CORPUS, fn)) as f:
+                    d = json.load(f)
+                out.append((fn, d))
+    return out
+
+
+def _batched(it, n):
+    buf = []
+    for x in it:
+        buf.append(x)
+        if len(buf) >= n:
+            yield buf
+            buf = []
+    if buf:
+        yield buf
+
+
+class _Part:
+    """picklable partial outcome produced by a worker process"""
+
+    def __init__(self):
+        self.cases = self.validated = 0
+        self.nontrivial, self.violations, self.disagreements, self.notes, self.stats = set(), [], [], [], {}
+
+    def seen(self, key, nontrivial=True):
+        if nontrivial:
+            self.nontrivial.add(hashlib.sha1(repr(key).encode()).hexdigest()[:16])
+
+    def stat(self, k, n=1):
+        self.stats[k] = self.stats.get(k, 0) + n
+
+    def sample(self, *a, **k):
+        pass
+
+
+def _work(arg):
+    tag, cases = arg
+    part = _Part()
+    run_cases(cases, part, tag=tag)
+    return part
+
+
+def _merge(out, part):
+    out.cases += part.cases
+    out.validated += part.validated
+    out.nontrivial |= part.nontrivial
+    out.violations.extend(part.violations)
+    out.disagreements.extend(part.disagreements)
+    for n in part.notes:
+        if len(out.notes) < 10:
+            out.notes.append(n)
+    for k, v in part.stats.items():
+        out.stat(k, v)
+
+
+WORKERS = max(1, min(6, (os.cpu_count() or 2) // 2))
+
+
+def run_many(pool, cases_iter, out, tag, batch):
+    """distribute batches of cases over the worker processes (results merged in order: deterministic)"""
+    jobs = ((tag, b) for b in _batched(cases_iter, batch))
+    if pool is None:
+        for j in jobs:
+            _merge(out, _work(j))
+    else:
+        for part in pool.imap(_work, jobs):
+            _merge(out, part)
+
+
+def run(ctx, out):
+    rng = ctx.rng
+    t0 = time.time()
+    # 1. corpus first (the original F-C06a witness and anything minimised later)
+    for fn, d in load_corpus():
+        before = len(out.violations)
+        run_cases([d["case"]], out, tag="corpus")
+        out.sample({"corpus": fn, "holds": len(out.violations) == before})
+    pool = multiprocessing.get_context("fork").Pool(WORKERS) if WORKERS > 1 else None
+    try:
+        # 2. exhaustive small scope
+        stalls = 1 if ctx.quick else 2
+        c0 = out.cases
+        run_many(pool, gen_exhaustive_raw(stalls), out, "exhaustive_raw", 1500)
+        run_many(pool, gen_exhaustive_ws(not ctx.quick), out, "exhaustive_ws", 1500)
+        out.exhaustive = True
+        out.notes.append(f"exhaustive scope: raw socket, two packets <= 6 bytes (5+6, 5+4, 5+2), every split of each packet, <= {stalls} "
+                         f"stalls (zero / would-block) anywhere, one OSError anywhere, external-loop and direct-write mode; websocket: "
+                         f"one packet, every split of its frame (thorough: two packets): {out.cases - c0} cases in {time.time() - t0:.1f}s")
+        # 3. random
+        t1 = time.time()
+        n_raw, n_ws = ctx.n(600, 12000), ctx.n(300, 6000)
+        run_many(pool, [gen_random(rng, "raw", big=not ctx.quick) for _ in range(n_raw)], out, "random_raw", 100)
+        run_many(pool, [gen_random(rng, "ws", big=not ctx.quick) for _ in range(n_ws)], out, "random_ws", 50)
+        if not ctx.quick:
+            # the three WebSocket length classes, deterministic sizes around the borders
+            cases = []
+            for size in (119, 120, 121, 122, 65529, 65530, 65531, 65532, 70000):
+                for ext in (True, False):
+                    fl = frame_len(size + 5)
+                    plan = [1, 1, rng.randint(1, 12), 0, -1, rng.randint(1, fl), fl]
+                    cases.append({"mode": "ws", "ext": ext, "onpub": True, "keys": [[rng.randrange(256) for _ in range(4)] for _ in range(3)],
+                                  "ops": [{"op": "connect", "plan": []}, {"op": "connack"},
+                                          {"op": "pub", "qos": 0, "size": size, "plan": plan, "keep": True}] + [{"op": "write"} for _ in range(9)]})
+            run_many(pool, cases, out, "ws_length_classes", 3)
+        out.notes.append(f"random: {n_raw} raw + {n_ws} websocket cases in {time.time() - t1:.1f}s ({WORKERS} worker processes)")
+    finally:
+        if pool is not None:
+            pool.close()
+            pool.join()
+    # samples for the evidence
+    smp = gen_random(rng, "ws", nops=4)
+    conns, viol, _, _ = execute(smp)
+    out.sample({"case": smp, "connections": [{"packets": [len(p["b"]) for p in c.pk], "raw_wire_bytes": len(c.sock.wire),
+                                              "model_ops": [(m[0], list(m[-1])) for m in c.mops]} for c in conns],
+                "violations": len(viol)})
+    # cross-check of the Python frame splitter used by the oracle with the extracted specification `deframe`
+    wires = [bytes(c.sock.wire) for c in conns if c.sock.wire]
+    for _ in range(ctx.n(20, 200)):
+        cs, _, _, _ = execute(gen_random(rng, "ws", nops=6))
+        wires += [bytes(c.sock.wire) for c in cs if c.sock.wire]
+    if wires:
+        res = model.run_batch("writer", 3, [list(w) for w in wires])
+        for w, r_ in zip(wires, res):
+            out.cases += 1
+            out.stat("deframe_crosscheck")
+            frames, rest = py_deframe(w)
+            exp = [1, len(frames)]
+            for f in frames:
+                exp += [len(f["payload"])] + list(f["payload"])
+            exp += [len(rest)] + list(rest)
+            if r_ != exp:
+                out.disagreements.append({"what": "python deframe differs from the extracted deframe", "wire": list(w)[:200]})
+
+
+def replay(payload):
+    case = payload.get("case")
+    if not isinstance(case, dict) or "ops" not in case:
+        return True, {"note": "nothing to replay"}
+    conns, viol, _, notes = execute(case)
+    detail = {"violations": [{"what": v["what"], "signature": v["signature"]} for v in viol],
+              "connections": [{"packets_queued": [len(p["b"]) for p in c.pk], "raw_bytes_accepted": len(c.sock.wire),
+                               "left_in_queue": [(i, p["d"]["pos"], p["d"]["to_process"]) for i, p in enumerate(c.pk) if p["d"]["to_process"]]}
+                              for c in conns], "notes": notes}
+    return not viol, detail
+
+
+def finding_still_fails(f):
+    path = f.get("replay")
+    if path and path != "-":
+        p = path if os.path.isabs(path) else os.path.join(os.path.dirname(CORPUS.rstrip("/")), "..", path)
+        try:
+            with open(os.path.normpath(p)) as fh:
+                d = json.load(fh)
+            holds, detail = replay(d)
+            return (not holds and any(v["signature"] == f["sig"] for v in detail["violations"])), detail
+        except OSError as e:
+            return False, str(e)
+    return False, "no replay recorded"
